@@ -13,6 +13,7 @@ pub enum DpScanEvent {
 }
 
 #[derive(Debug)]
+#[cfg_attr(feature = "verif-hooks", derive(Clone))]
 pub struct DpScanner {
     stations: bitvec::BitArr!(for 128),
     cursor: crate::Address,
